@@ -29,7 +29,7 @@ RULE = ("byte strings = valid encodings mutated at every field / truncated at ev
         "= distinct case line")
 
 VN_WRAPS = ["coap_ticks", "coap_socket_send", "coap_socket_recv"]
-STATES = ["fresh", "obs", "blk2", "blk1", "client"]
+STATES = ["fresh", "obs", "blk2", "blk1", "client", "osc"]
 
 
 def hostile_dgram(r, state):
@@ -48,7 +48,9 @@ def hostile_dgram(r, state):
         code = r.choice([0x45, 0x44, 0x5f, 0x84, 0xa0, 0x00, 0x41, 0x01, r.randrange(256)])
     else:
         ty = r.choice([0, 0, 1, 2, 3])
-        code = r.choice([1, 1, 2, 3, 4, 5, 6, 7, 0, 0x45, 0xe1, r.randrange(256)])
+        # every request code incl. the unassigned 0.08 .. 0.31 (method table bounds)
+        code = r.choice([1, 1, 2, 3, 4, 5, 6, 7, 8, 9, 31, r.randrange(8, 32), 0, 0x45, 0xe1,
+                         r.randrange(256)])
     opts = []
 
     def uv(maxlen=4):
@@ -65,8 +67,33 @@ def hostile_dgram(r, state):
     for _ in range(r.choice([0, 1, 1, 2, 2, 3, 5])):
         n, f = r.choice(cand)
         opts.append((n, f()))
+    if state == "osc" and r.random() < 0.8:
+        # structured OSCORE option value: flag byte (n = PIV length, k, h bits, reserved bits),
+        # PIV, optional kid context (length byte + bytes), kid; lengths may lie
+        nlen = r.choice([0, 1, 1, 2, 5, 6, 7])
+        flags = nlen | (0x08 if r.random() < 0.7 else 0) | (0x10 if r.random() < 0.3 else 0) | \
+            r.choice([0, 0, 0, 0x20, 0x40, 0x80])
+        v = bytes([flags]) + gen_wire.rbytes(r, r.choice([nlen, nlen, max(0, nlen - 1)]))
+        if flags & 0x10:
+            kl = r.choice([0, 1, 8, 200])
+            v += bytes([kl]) + gen_wire.rbytes(r, r.choice([kl, 0, 3]) if kl < 100 else 2)
+        if flags & 0x08:
+            v += r.choice([b"", b"\x02", b"\x01", b"\x02\x03", gen_wire.rbytes(r, 7)])
+        opts = [o for o in opts if o[0] != 9] + [(9, v[:255])]
+        code = r.choice([2, 2, 5, 0x44, 1])
     if state != "client" or r.random() < 0.2:
         opts.append((11, path))
+    if r.random() < 0.12:
+        # option area larger than the 256-byte initial PDU allocation (copies / duplicates of the
+        # request are made for observe registrations, block-wise state, async, caches)
+        big = [(15, b"q=" + bytes([97 + r.randrange(26)]) * r.choice([200, 247, 248, 249, 250, 253]))
+               for _ in range(r.choice([1, 1, 2, 4]))]
+        opts += big
+        if r.random() < 0.7:
+            tok = gen_wire.rbytes(r, 8)
+        if r.random() < 0.6 and state != "client":
+            opts = [o for o in opts if o[0] != 6] + [(6, b"")]
+            code = 1
     opts.sort(key=lambda o: o[0])
     pl = b"" if r.random() < 0.5 else gen_wire.rbytes(r, r.choice([1, 3, 16, 63, 64, 65, 200]))
     b = gen_wire.py_serialize("udp", ty, code, mid, tok, opts, pl)
@@ -77,6 +104,15 @@ def hostile_dgram(r, state):
     elif y < 0.5 and len(b) > 1:
         b = b[:r.randrange(1, len(b))]
     return b
+
+
+def c05_wraps():
+    """h_stream.c is C05's driver; link it with whatever interpositions C05 declares"""
+    try:
+        from checks import c05
+        return list(c05.WRAPS)
+    except Exception:
+        return ["coap_socket_read", "coap_socket_write", "select"]
 
 
 def summary_of(err):
@@ -121,8 +157,9 @@ def main(run):
         "memory safety of C outside the modelled parser is a runtime fact: it is observed by "
         "sanitizers on the explored inputs and states, not proved (heap lifetime, coap_debug.c "
         "printers, block/observe/OSCORE state machines)",
-        "TCP: hostile streams are delivered to a live server stream session (stage 5, crash/trap "
-        "oracle only); WebSocket framing: not yet driven by this check (chunking safety: C05)",
+        "TCP and WebSocket: hostile streams are delivered to a live server stream session (stage 5, "
+        "crash/trap/hang oracle only; delivery semantics under chunking are C05's); WebSocket client "
+        "side (HTTP response parsing) is not driven",
         "GnuTLS and libc are not instrumented"]
     run.prove()
     model = vlib.build_model()
@@ -269,7 +306,7 @@ def main(run):
     # bytes, oversize declarations, every kind of cut)
     import gen_stream
     hs = vlib.build_driver("h_stream", ["h_stream.c"], variant="asan",
-                           wraps=["coap_socket_read", "coap_socket_write"])
+                           wraps=c05_wraps())
     r = tie.rng_for(run, "c02-tcp")
     tl = [ln for ln in vlib.read_corpus("C02") if ln.startswith("tcp ")]
     sig = [bytes([0x00, 0xe4]), bytes([0x00, 0xe5]), bytes([0x00, 0xe1]), bytes([0x00, 0xe2]),
@@ -300,10 +337,38 @@ def main(run):
                     if len(stream) > 1 else []
                 cuts = gen_stream.cuts_to_token(pts, len(stream))
             tl.append("tcp 0 %s %s" % (stream.hex(), cuts))
+    # WebSocket server session: HTTP upgrade (valid / variant / over-long / malformed lines) then
+    # frames: valid, oversize declarations, unmasked, bad opcodes, close frames, and byte-level
+    # mutations of all of it; opt bit 0 = a second connection gets traffic between arrivals
+    if hasattr(gen_stream, "gen_ws_stream"):
+        for i in range(300 if quick else 9000):
+            stream, meta = gen_stream.gen_ws_stream(r, small=(i % 3 == 0))
+            x = r.random()
+            if x < 0.45 and len(stream) > meta["hslen"] + 1:
+                body = stream[meta["hslen"]:]
+                for _ in range(r.choice([1, 2, 3])):
+                    body = gen_wire.mutate(r, body)
+                stream = stream[:meta["hslen"]] + body
+            elif x < 0.6:
+                for _ in range(r.choice([1, 2])):
+                    stream = gen_wire.mutate(r, stream)
+            if not stream:
+                continue
+            y = r.random()
+            if y < 0.3:
+                cuts = "-"
+            elif y < 0.45:
+                cuts = "x1"
+            else:
+                pts = sorted(set(r.randrange(1, len(stream)) for _ in range(r.choice([1, 2, 3, 5])))) \
+                    if len(stream) > 1 else []
+                cuts = gen_stream.cuts_to_token(pts, len(stream))
+            tl.append("ws %d %s %s" % (r.choice([0, 0, 1]), stream.hex(), cuts))
     to, tcr = vlib.run_lines_robust(hs, tl, env=asan_env, timeout=1800)
     ntcp = 0
     for i, ln in enumerate(tl):
         run.count(ln, True)
+        run.hist("stream_kind", ln.split()[0])
         run.hist("tcp_stream_cut", "single" if ln.endswith(" -") else "bytewise" if ln.endswith(" x1") else "cuts")
         if i % 200 == 7:
             run.sample({"case": ln[:200], "impl": to[i][:160]})
@@ -314,7 +379,7 @@ def main(run):
                 if cj == i:
                     err = e
             if ntcp <= 3:
-                run.violation("sanitizer trap / crash / hang on a hostile TCP stream: " + summary_of(err),
+                run.violation("sanitizer trap / crash / hang on a hostile TCP/WebSocket stream: " + summary_of(err),
                               "case: %s\nimpl: %s\n%s\n" % (ln, to[i], err), tag="tcp%d" % ntcp)
     run.cov["tcp_stream_cases"] = len(tl)
     run.cov["tcp_stream_failures"] = ntcp
